@@ -149,10 +149,17 @@ struct ChanSt {
 }
 struct Chan {
     st: Mutex<ChanSt>,
+    /// "atomic" flavour: readiness is a plain atomic flag (Release store / Acquire load) and the
+    /// child keeps using the waker of its first poll, so that a re-poll touches no lock at all.
+    /// The only thing that then orders a wake against a concurrent re-poll is the crate itself.
+    atomic: bool,
+    aready: std::sync::atomic::AtomicBool,
 }
 impl Chan {
-    fn new() -> Arc<Chan> {
+    fn new(atomic: bool) -> Arc<Chan> {
         Arc::new(Chan {
+            atomic,
+            aready: std::sync::atomic::AtomicBool::new(false),
             st: Mutex::new(ChanSt {
                 ready: false,
                 avail: 0,
@@ -168,10 +175,39 @@ impl Chan {
 struct ChanFut {
     ch: Arc<Chan>,
     id: usize,
+    registered: bool,
+    finished: bool,
 }
+static ATOMIC_POLLED_AFTER_DONE: std::sync::atomic::AtomicBool = std::sync::atomic::AtomicBool::new(false);
+impl Unpin for ChanFut {}
 impl Future for ChanFut {
     type Output = usize;
-    fn poll(self: Pin<&mut Self>, cx: &mut Context<'_>) -> Poll<usize> {
+    fn poll(mut self: Pin<&mut Self>, cx: &mut Context<'_>) -> Poll<usize> {
+        if self.ch.atomic {
+            if self.finished {
+                ATOMIC_POLLED_AFTER_DONE.store(true, Ordering::Relaxed);
+                return Poll::Pending;
+            }
+            if self.ch.aready.load(Ordering::Acquire) {
+                self.finished = true;
+                self.ch.st.lock().unwrap().done = true;
+                return Poll::Ready(self.id);
+            }
+            if !self.registered {
+                self.registered = true;
+                CLONES.fetch_add(1, Ordering::Relaxed);
+                let w = HW::new(cx.waker().clone());
+                let old = self.ch.st.lock().unwrap().waker.replace(w);
+                drop(old);
+                // the flag may have been set while we registered
+                if self.ch.aready.load(Ordering::Acquire) {
+                    self.finished = true;
+                    self.ch.st.lock().unwrap().done = true;
+                    return Poll::Ready(self.id);
+                }
+            }
+            return Poll::Pending;
+        }
         let mut st = self.ch.st.lock().unwrap();
         if st.done {
             st.polled_after_done = true;
@@ -442,6 +478,20 @@ fn waker_thread(chans: Vec<(Arc<Chan>, bool, u32)>, ops: Vec<(usize, WOp)>, gate
     for (c, op) in ops {
         let (ch, is_stream, items) = &chans[c];
         match op {
+            WOp::Fire if ch.atomic => {
+                // a waker fetched earlier (no lock between the store and the wake), if we have one
+                let pre = kept.iter().position(|(k, _)| *k == c).map(|i| kept.swap_remove(i).1);
+                ch.aready.store(true, Ordering::Release);
+                match pre {
+                    Some(w) => invoke(w, true),
+                    None => {
+                        let w = ch.st.lock().unwrap().waker.as_ref().map(|w| w.dup());
+                        if let Some(w) = w {
+                            invoke(w, false);
+                        }
+                    }
+                }
+            }
             WOp::Fire => {
                 let w = {
                     let mut st = ch.st.lock().unwrap();
@@ -535,7 +585,7 @@ pub fn scenario(mode: Mode, max_threads: usize, max_children: usize) {
     let n = rng.gen_range(1..=max_children);
     let n_threads = rng.gen_range(1..=max_threads);
     let chans: Vec<(Arc<Chan>, bool, u32)> = (0..n)
-        .map(|_| (Chan::new(), is_stream, if is_stream { rng.gen_range(0..3u32) } else { 0 }))
+        .map(|_| (Chan::new(!is_stream && rng.gen_bool(0.35)), is_stream, if is_stream { rng.gen_range(0..3u32) } else { 0 }))
         .collect();
     // some children are ready before anything is polled
     for (ch, s, items) in &chans {
@@ -555,6 +605,8 @@ pub fn scenario(mode: Mode, max_threads: usize, max_children: usize) {
     let mk_fut = |i: usize| ChanFut {
         ch: chans[i].0.clone(),
         id: i,
+        registered: false,
+        finished: false,
     };
     let mk_stream = |i: usize| ChanStream {
         ch: chans[i].0.clone(),
@@ -680,6 +732,10 @@ pub fn scenario(mode: Mode, max_threads: usize, max_children: usize) {
             per_thread[t2].push((c, op));
         }
         let fires = if is_stream { chans[c].2 + 1 } else { 1 };
+        if chans[c].0.atomic {
+            // fetch the waker ahead of time so that nothing but the crate orders the wake
+            per_thread[t].push((c, WOp::Keep));
+        }
         for _ in 0..fires {
             per_thread[t].push((c, WOp::Fire));
             if rng.gen_bool(0.3) {
@@ -859,6 +915,7 @@ pub fn scenario(mode: Mode, max_threads: usize, max_children: usize) {
         let w = ch.st.lock().unwrap().waker.take();
         drop(w);
         assert!(!ch.st.lock().unwrap().polled_after_done, "C05: a finished child was polled again");
+        assert!(!ATOMIC_POLLED_AFTER_DONE.swap(false, Ordering::Relaxed), "C05: a finished child was polled again");
     }
     drop(flag);
     reg::end_execution();
